@@ -46,9 +46,11 @@ package input
 //@ pred groupsOK(c map[PhysicalID][]DeviceInfo) :=
 //@   (forall p PhysicalID :: has(c, p) ==> len(c[p]) >= 1 && allocated(c[p]))
 //@   && (forall p PhysicalID, h int :: has(c, p) && 0 <= h && h < len(c[p]) ==> phys(c[p][h]) == p)
-// the first n inputs are all in the group of their location
+// the first n inputs are all in the group of their location. The position inside the group is recorded in the ghost map
+// `slot` when the handler is appended (siteghost below), so the statement needs no existential quantifier.
+//@ ghost var slot fun[int]int
 //@ pred placed(in []DeviceInfo, n int, c map[PhysicalID][]DeviceInfo) :=
-//@   forall i int :: 0 <= i && i < n ==> has(c, phys(in[i])) && (exists h int :: 0 <= h && h < len(c[phys(in[i])]) && c[phys(in[i])][h] == in[i])
+//@   forall i int :: 0 <= i && i < n ==> has(c, phys(in[i])) && 0 <= slot[i] && slot[i] < len(c[phys(in[i])]) && c[phys(in[i])][slot[i]] == in[i]
 
 // a device holds at least one handler and only handlers of its own location
 //@ pred devOK(dv Device) := len(dv.Handlers) >= 1 && allocated(dv.Handlers) && (forall h int :: 0 <= h && h < len(dv.Handlers) ==> phys(dv.Handlers[h].DeviceInfo) == dv.Phys)
@@ -71,6 +73,7 @@ package input
 // bounded stand-in c20_normalize (see props.json / DESIGN.md): its quantified invariants over a map of slices of structs
 // sent all three solvers into matching loops.
 //@ func Normalize
+//@   siteghost mapupdate(map[PhysicalID][]DeviceInfo) slot = upd(slot, idx(1) - 1, len(v) - 1)
 //@   loop 1 invariant [C20] collection != nil && groupsOK(collection) && placed(deviceInfos, idx(), collection)
 //@   loop 2 invariant [C20] collection != nil && groupsOK(collection)
 //@   loop 5 invariant [C20] collection != nil && groupsOK(collection)
